@@ -90,6 +90,21 @@ CLAIMS = {
                  'named in .gitignore were searched) was repaired. Completeness of hits is not decided.',
         'technique': 'table equality + CFG order/must rules + dominating-fact (gate) checks (ast)',
     },
+    'C09': {
+        'level': 'That jedi adds no staleness on top of parso/importlib: every parse call site is enumerated and classified (disk loaders '
+                 'parse with cache=True, a stat-able file handle and the shared cache directory; snippets are uncached), module caches are '
+                 'per-InferenceState with no class-level state, the process-lifetime store and time-cache inventories of C08 are re-checked '
+                 'for module-name/path keyed memos, and module discovery goes to the helper and the directory listing each time. Races and '
+                 'importlib finder caches inside the helper are assumptions.',
+        'technique': 'call-site census + store inventory (who-may-write) + decorator/shape checks (ast)',
+    },
+    'C10': {
+        'level': 'The delegation wiring only: the composed search path reaches get_module_info on the global branch and the parent __path__ on '
+                 'the sub-module branch, sys.path is swapped and restored around the finder walk, sys.meta_path is consulted in order with '
+                 'first-spec-wins, namespace portions are passed as a plain list, the attribute-before-sub-module order holds in both sibling '
+                 'implementations, relative levels use py__package__. Agreement with importlib over all layouts is not decided.',
+        'technique': 'def-use/flow shape rules + CFG order/pair rules + sibling agreement (ast)',
+    },
     'C12': {
         'level': 'Whole-package inventory of code-execution sinks and host-state writers by resolved callee (every call site classified), '
                  'who-may-call on the one real importer chain, gate/flow on the safe-path filter of _load_builtin_module, undotted '
